@@ -272,4 +272,6 @@ func TestC13(t *testing.T) {
 		}
 		c.Case(false, "", "directed:short-destination")
 	}
+
+	c13Concurrent(c, t)
 }
